@@ -90,9 +90,67 @@ theorem run_final {D : Data α} {S : Services α} {o : NumOps α} {P : Params α
     have hmem : dims.getLastD 0 ∈ dims := by
       rw [List.getLastD_eq_getLast?, List.getLast?_eq_some_getLast s3]
       exact List.getLast_mem s3
-    rw [s6] at hmem
-    exact isPermOf_lt s5 _ (List.mem_filter.1 hmem).1
+    have hmem' : dims.getLastD 0 ∈ di.filter (fun d => od.contains d) := s6 ▸ hmem
+    exact isPermOf_lt s5 _ (List.mem_filter.1 hmem').1
   exact ⟨di, od, dims, K, sprev, st, hs, hm, rfl, i5, i6, i1, hw, by omega, by simpa using i4, s3, hlast⟩
+
+/-- `ktensor.norm()` squared is the squared Frobenius norm of the array the Kruskal tensor
+denotes (the Kruskal norm identity; `Lemmas/CpAlsKnorm.lean` proves it). -/
+def KnormLaw (α : Type) [Field α] (s : List Nat) : Prop :=
+  ∀ (w : List α) (U : List (Mat α)), ShapeOK s w.length U →
+    knormSq w U = ip s (Ktensor.get ⟨w, U⟩) (Ktensor.get ⟨w, U⟩)
+
+theorem knorm_mul_self {o : NumOps α} (ho : o.Lawful) {s : List Nat} (hkn : KnormLaw α s) (w : List α)
+    (U : List (Mat α)) (hU : ShapeOK s w.length U) :
+    knorm o w U * knorm o w U = ip s (Ktensor.get ⟨w, U⟩) (Ktensor.get ⟨w, U⟩) := by
+  unfold knorm
+  rw [(ho.sqrt_abs_sq _).2, hkn w U hU, abs_of_nonneg (ip_self_nonneg _ _)]
+
+/-- The pair `(normresidual, fit)` computed by `report` from `‖X‖`, `‖M‖`, `⟨X, M⟩`. -/
+theorem report_spec {o : NumOps α} (ho : o.Lawful) (s : List Nat) (X M : List Nat → α) (nx nm ipr : α)
+    (hM : nm * nm = ip s M M) (hI : ipr = ip s X M) :
+    (nx ≠ 0 → nx * nx = ip s X X →
+      0 ≤ (report o nx nm ipr).1 ∧
+      (report o nx nm ipr).1 * (report o nx nm ipr).1 = ip s (fun i => X i - M i) (fun i => X i - M i) ∧
+      (report o nx nm ipr).2 = 1 - (report o nx nm ipr).1 / nx) ∧
+    (nx = 0 →
+      (report o nx nm ipr).1 = ip s M M - 2 * ip s X M ∧ (report o nx nm ipr).2 = ip s M M - 2 * ip s X M) := by
+  constructor
+  · intro hnz hX
+    have hb : Gen.branchZero o nx = false := by
+      rw [Gen.branchZero, Bool.eq_false_iff, Ne, ho.isZero_iff]; exact hnz
+    have h := normresidual_spec ho s X M nx nm ipr hX hM hI
+    simp only [report, hb, Bool.false_eq_true, if_false]
+    exact ⟨h.1, h.2, fit_spec ho _ _⟩
+  · intro hz
+    have hb : Gen.branchZero o nx = true := by rw [Gen.branchZero, ho.isZero_iff]; exact hz
+    have h := normresidualZero_spec ho s X M nm ipr hM hI
+    simp only [report, hb, if_true]
+    exact ⟨h.1, h.2⟩
+
+/-- The values a pass reports are about the model `[[weights; U]]` it has just assembled. -/
+theorem iterStep_report {D : Data α} {S : Services α} {o : NumOps α} (ho : o.Lawful) {rank : Nat} {stoptol : α}
+    {dims : List Nat} {it : Nat} {st st' : State α} {X : List Nat → α}
+    (h : iterStep D S o rank stoptol dims it st = .ok st') (hI : PassInv D rank st)
+    (hne : dims ≠ []) (hlast : dims.getLastD 0 < D.shape.length)
+    (hD : DataLaws D X) (hkn : KnormLaw α D.shape) :
+    let M : List Nat → α := Ktensor.get ⟨st'.weights, st'.U⟩
+    iprodOf rank (D.shape.getD (dims.getLastD 0) 0) (st'.U.getD (dims.getLastD 0) []) st'.Umttkrp st'.weights
+        = ip D.shape X M ∧
+    (D.norm ≠ 0 → D.norm * D.norm = ip D.shape X X →
+      0 ≤ st'.normresidual ∧
+      st'.normresidual * st'.normresidual = ip D.shape (fun i => X i - M i) (fun i => X i - M i) ∧
+      st'.fit = 1 - st'.normresidual / D.norm) ∧
+    (D.norm = 0 →
+      st'.normresidual = ip D.shape M M - 2 * ip D.shape X M ∧ st'.fit = ip D.shape M M - 2 * ip D.shape X M) := by
+  obtain ⟨st1, hf, rfl⟩ := iterStep_ok h
+  have hs := foldlM_shape dims hf hI.shape
+  have hw := hs.2 hne
+  have hip := sweep_iprod hD dims hne hlast hI.shape hf
+  have hnm := knorm_mul_self ho hkn st1.weights st1.U (by rw [hw]; exact hs.1)
+  have hr := report_spec ho D.shape X (Ktensor.get ⟨st1.weights, st1.U⟩) D.norm (knorm o st1.weights st1.U) _ hnm hip
+  dsimp only [closePass, passReport]
+  exact ⟨hip, hr.1, hr.2⟩
 
 end runlevel
 end Pyttb.CpAls
